@@ -37,30 +37,39 @@ theorem next_line_bridge (ext : Py.Ext) (rest : Py.Env) (i : Nat) (dc dn : Int) 
   | zero =>
     cases r with
     | nil =>
-      simp [py_core, py_norm, Py.len, Py.H.letv, Py.H.cond, Py.H.setattr, Py.H.ret, okVE, monEnv, optInt, trackData]
+      simp [py_core, py_norm, Py.len, Py.H.letv, Py.H.cond, Py.H.setattr, Py.H.ret, Py.H.bind, okVE, monEnv, optInt, trackData]
       env_cases
     | cons x xs =>
       have hne : ¬ ((xs.length : Int) + 1 ≤ 0) := by omega
-      simp [py_core, py_norm, Py.len, Py.H.letv, Py.H.cond, Py.H.setattr, Py.H.ret, okVE, monEnv, optInt, trackData, hne]
+      simp [py_core, py_norm, Py.len, Py.H.letv, Py.H.cond, Py.H.setattr, Py.H.ret, Py.H.bind, okVE, monEnv, optInt, trackData, hne]
       env_cases
   | succ j =>
     cases r with
     | nil =>
-      simp [py_core, py_norm, Py.len, Py.H.letv, Py.H.cond, Py.H.setattr, Py.H.ret, okVE, monEnv, optInt, trackData, Py.upd]
+      simp [py_core, py_norm, Py.len, Py.H.letv, Py.H.cond, Py.H.setattr, Py.H.ret, Py.H.bind, okVE, monEnv, optInt, trackData, Py.upd]
       env_cases
     | cons x xs =>
       have hne : ¬ ((xs.length : Int) + 1 ≤ 0) := by omega
       by_cases hdc : dc = -1
       · subst hdc
-        simp [py_core, py_norm, Py.len, Py.H.letv, Py.H.cond, Py.H.setattr, Py.H.ret, okVE, monEnv, optInt, trackData, Py.upd, hne]
+        simp [py_core, py_norm, Py.len, Py.H.letv, Py.H.cond, Py.H.setattr, Py.H.ret, Py.H.bind, okVE, monEnv, optInt, trackData, Py.upd, hne]
         env_cases
-      · simp [py_core, py_norm, Py.len, Py.H.letv, Py.H.cond, Py.H.setattr, Py.H.ret, okVE, monEnv, optInt, trackData, Py.upd, hne, hdc]
+      · simp [py_core, py_norm, Py.len, Py.H.letv, Py.H.cond, Py.H.setattr, Py.H.ret, Py.H.bind, okVE, monEnv, optInt, trackData, Py.upd, hne, hdc]
         env_cases
 
 theorem setattr_ok (path : String) (v : Py.V) (env : Py.Env) (effs : List Py.Eff) (k : Py.Env → List Py.Eff → Py.H.Res)
     (h : Py.isExc v = false) :
     Py.H.setattr path v env effs k = k (Py.upd env path v) (effs ++ [{ name := "set " ++ path, args := [v] }]) := by
   cases v <;> simp [Py.isExc] at h <;> rfl
+
+theorem letv_ok (v : Py.V) (env : Py.Env) (effs : List Py.Eff) (k : Py.V → Py.H.Res) (h : Py.isExc v = false) :
+    Py.H.letv v env effs k = k v := by cases v <;> simp [Py.isExc] at h <;> rfl
+
+theorem upd_other (e : Py.Env) (k k' : String) (v : Py.V) (h : ¬ k' = k) : Py.upd e k v k' = e k' := by simp [Py.upd, h]
+theorem isExc_none : Py.isExc Py.V.none = false := rfl
+theorem ret_none (e : Py.Env) (ef : List Py.Eff) : Py.H.ret Py.V.none e ef = .ok .none e ef := rfl
+theorem bind_ok (v : Py.V) (e : Py.Env) (ef : List Py.Eff) (k : Py.V → Py.Env → List Py.Eff → Py.H.Res) :
+    Py.H.bind (.ok v e ef) k = k v e ef := rfl
 
 /-- `set_end_lines_and_reset`: the four end marks take the current counters, which are unset again -/
 theorem set_end_bridge (ext : Py.Ext) (env : Py.Env) (effs : List Py.Eff)
@@ -74,10 +83,7 @@ theorem set_end_bridge (ext : Py.Ext) (env : Py.Env) (effs : List Py.Eff)
       env' "self._physical_line_count" = .none ∧ env' "self._physical_line_number" = .none ∧
       env' "self._data_line_count" = .none ∧ env' "self._data_line_number" = .none := by
   simp only [py_core]
-  rw [setattr_ok _ _ _ _ _ h1]
-  rw [setattr_ok _ _ _ _ _ (by simpa [Py.upd] using h2)]
-  rw [setattr_ok _ _ _ _ _ (by simpa [Py.upd] using h3)]
-  rw [setattr_ok _ _ _ _ _ (by simpa [Py.upd] using h4)]
-  simp [Py.H.setattr, Py.H.ret, okVE, Py.upd]
+  simp (config := { decide := true }) only [setattr_ok, letv_ok, bind_ok, ret_none, upd_other, isExc_none, h1, h2, h3, h4]
+  simp [okVE, Py.upd, Py.H.setattr, Py.H.letv, Py.H.ret, Py.H.bind]
 
 end Proofs.BridgeLineMonitor
